@@ -41,17 +41,12 @@ def jobs(tier):
                 continue  # ordered comparison of strings/bools is not offered by the filter language
             j = {"id": f"O4.{op}.c{KN[ck]}.d{KN[dk]}", "func": "VerifH_C08_FilterOp",
                  "conf": {"op": oi, "ck": ck, "dk": dk, "dnull": 1}, "_obligation": "O4", "_covers": ["filtered"]}
-            if {ck, dk} == {1, 2}:
-                # an int datum under a float condition (or vice versa) cannot be produced through the typed
-                # GraphQL filter arguments (checked natively: "Expected type Int, found 21.0"; JSON numbers are
-                # always float64): these operand mixes are analysed as a diagnostic only
-                j["_expect"] = "diagnostic"
+            # mixed int/float operands are reachable through the public API: JSON fields hold float64 and accept
+            # integer operands; aggregates filtered through _alias are int (_count) or float (_avg) under either operand
             js.append(j)
     for ck, dk in [(1, 1), (2, 2), (1, 2), (2, 1)]:
         j = {"id": f"O4.laws.c{KN[ck]}.d{KN[dk]}", "func": "VerifH_C08_FilterLaws", "conf": {"ck": ck, "dk": dk},
              "_obligation": "O4", "_covers": ["filtered"]}
-        if ck != dk:
-            j["_expect"] = "diagnostic"
         js.append(j)
     js.append({"id": "twin", "func": "VerifH_C08_Reach", "conf": {}, "_obligation": "vacuity", "_expect": "twin", "_covers": ["end"]})
     return js
